@@ -14,8 +14,9 @@
 EXTENDS JudgeTx, CGFamilies, IOUtils
 
 Strip(f) == {x \in f : ~HasPrefix(x, "DRIFT:")}
-VARIABLES c0, single
-vars == <<c0, single>>
+\* go: the relation is evaluated on the successor of each initial state (TLC checks initial states in one thread)
+VARIABLES c0, single, go
+vars == <<c0, single, go>>
 Retyped(c, t) == [c EXCEPT !.ty = [q \in 1..c.n |-> IF c.ty[q] = "input" THEN "input"
                                                    ELSE IF Len(c.fi[q]) = 1 THEN (IF t = "and" THEN "buf" ELSE "not") ELSE t]]
 Full == "MC_FULL" \in DOMAIN IOEnv            \* thorough tier: the 6-node shapes too
@@ -45,12 +46,12 @@ Shared(c) == \E a \in Outputs(c), b \in Outputs(c) : a # b /\ ConeGates(c, a) \c
 MarkOut(c, q) == [c EXCEPT !.out[q] = TRUE]
 Loaded == {MarkOut(c, q) : c \in {d \in Shapes : d.n = 5}, q \in 1..5}
 Multi == {c \in Shapes \cup {d \in Loaded : \A q \in 1..d.n : d.out[q] => d.ty[q] # "input"} \cup Trees : NOut(c) >= 2}
-Init1 == single = "one"  /\ c0 \in {c \in Shapes \cup Trees \cup Deeps : NOut(c) = 1}
-InitD == single = "disjoint" /\ c0 \in {c \in Multi : ~Shared(c)}
-InitS == single = "shared" /\ c0 \in {c \in Trees \cup Deeps : NOut(c) >= 2 /\ Shared(c)}
-Next == UNCHANGED vars
+Init1 == go = FALSE /\ single = "one"  /\ c0 \in {c \in Shapes \cup Trees \cup Deeps : NOut(c) = 1}
+InitD == go = FALSE /\ single = "disjoint" /\ c0 \in {c \in Multi : ~Shared(c)}
+InitS == go = FALSE /\ single = "shared" /\ c0 \in {c \in Trees \cup Deeps : NOut(c) >= 2 /\ Shared(c)}
+Next == go = FALSE /\ go' = TRUE /\ UNCHANGED <<c0, single>>
 EventFor(R) == LET ord == SgTopo(ToNamed(c0), R, {}, <<>>) IN
   [c |-> c0, L |-> [j \in 1..Len(ord) |-> Indexed(ord[j].sg)], form |-> "list", wide |-> FALSE, superc |-> <<>>,
    exc |-> IF R # {} /\ ord = <<>> THEN "NetworkXUnfeasible" ELSE ""]
-SupergatesOK == \A R \in SupergateResults(ToNamed(c0)) : Strip(Judge_supergates(EventFor(R))) = {}
+SupergatesOK == go => \A R \in SupergateResults(ToNamed(c0)) : Strip(Judge_supergates(EventFor(R))) = {}
 =============================================================================
